@@ -211,7 +211,13 @@ def _construct_related_types(etype: tp.ParameterizedType, types, get_subtypes,
             t_args = [t for t in t_args if not t.is_primitive()]
             t_arg = utils.random.choice(t_args)
             type_var_map[t_param] = t_arg
-    return etype.t_constructor.new(list(type_var_map.values()))
+    new_type = etype.t_constructor.new(list(type_var_map.values()))
+    # The heuristics above for type parameters bounded by other type
+    # parameters may give a type that is not related to the given one;
+    # in this case, we give back the given type.
+    is_related = (new_type.is_subtype(etype) if get_subtypes
+                  else etype.is_subtype(new_type))
+    return new_type if is_related else etype
 
 
 def to_type(stype, types):
